@@ -4,11 +4,80 @@ import json, os, sys
 ROOT = os.path.dirname(os.path.dirname(os.path.abspath(__file__)))
 
 # id -> (technique, level text, level note, design ref)
+X = "Exploration, not proof: the property held on every generated / enumerated case; evidence reports how many, how many were distinct and non-trivial, and samples. "
 CHECKS = {
- "C05": ("model-based PBT (rapid) + bounded-exhaustive op sequences vs slice model",
-         "Exploration: every generated or enumerated history of Push/Pop/Peek/Enqueue/Dequeue/Clear is compared step by step with a slice model (return values, Size, Empty, Values, Peek, Full, final drain); all sequences of a fixed length over {add,take,clear} are enumerated for ring capacities 1..4, and every (capacity,start,size) ring state up to capacity 9 is visited. Held-on-everything-generated, not a proof.",
-         "Trusts the slice model and rapid; capacities beyond 17 and element types other than int are not generated.",
+ "C01": ("model-based stateful PBT (rapid) + bounded-exhaustive permutation pairs vs comparator-aware map model",
+         X + "Histories of Put/Remove/Get/Clear and runs on all 8 key-value kinds x comparator family x B-tree orders are compared with a map model after every step (touched/present/absent/just-removed Get, Size, Empty, position-aligned or multiset Keys/Values); all insertion x removal permutations of k keys enumerate every tree shape reachable that way.",
+         "Trusts the map model, rapid and the comparator family (all strict weak orders); int keys/values only; comparator-equal keys compared modulo the comparator.",
+         "DESIGN.md §4 C01"),
+ "C02": ("model-based PBT vs comparator-sorted model with probe keys between neighbours",
+         X + "Ordered kinds x 5 comparators (incl. two many-to-one) x orders: Keys/Values/forward+backward iteration strictly ascending and equal to the model, least/greatest accessors, Floor/Ceiling against a model scan with exact found-flag, probes below/between/above.",
+         "Trusts the sorted model; B-tree, TreeSet and TreeBidiMap have no Floor/Ceiling (enumeration and ends only).",
+         "DESIGN.md §4 C02"),
+ "C03": ("differential + model-based PBT: one script on three lists vs slice model, plus exhaustive index pairs",
+         X + "Each script runs on ArrayList, SinglyLinkedList and DoublyLinkedList at once with wild indices, 0..4-value variadics and threshold-crossing bulk phases; Values/Size/Get/IndexOf/Contains compared with a slice model after every step; every pair of index operations at every index is enumerated for short lists.",
+         "Trusts the slice model; sort stability not assumed (coarse order: validity predicate).",
+         "DESIGN.md §4 C03"),
+ "C04": ("model-based PBT: one script on five set configurations vs Go-map set",
+         X + "Variadic Add/Remove/Clear histories (duplicates inside a call, re-adds) on HashSet, TreeSet (natural, reversed, many-to-one) and LinkedHashSet; Contains over the whole domain, Contains(xs...), Size, Empty, duplicate-free Values after every step.",
+         "Trusts the map-set model (class semantics for the many-to-one TreeSet).",
+         "DESIGN.md §4 C04"),
+ "C05": ("model-based PBT + bounded-exhaustive op sequences vs slice model",
+         X + "Histories of Push/Pop/Peek/Enqueue/Dequeue/Clear compared step by step with a slice model (return values, Size, Empty, Values, Peek, Full, final drain); all sequences of a fixed length over {add,take,clear} for ring capacities 1..4; every (capacity,start,size) ring state up to capacity 9 visited.",
+         "Trusts the slice model; capacities beyond 17 not generated.",
          "DESIGN.md §4 C05"),
+ "C06": ("model-based PBT + exhaustive push orders vs exact multiset model (validity predicate, ties distinguishable)",
+         X + "Single/bulk Push, Pop, Peek, Clear and FromJSON(arbitrary order) on BinaryHeap and PriorityQueue with (P,ID) items: every Pop/Peek returns a contained element nothing precedes, the multiset is exact, Values/iteration are permutations starting with the Peek element, drain non-decreasing.",
+         "Heap layout and order among ties deliberately not asserted.",
+         "DESIGN.md §4 C06"),
+ "C07": ("PBT over structured workloads: shape invariants from exported fields + counting-comparator work bounds; exhaustive permutation pairs",
+         X + "Sorted/reverse/zig-zag/random/churn/drain workloads up to thousands of keys and all small permutation pairs; after every step (n<=64) the documented shape is validated from exported fields only, and every single Put/Remove/Get is checked against the property's comparator-call bound.",
+         "Colour rules not asserted (a red root satisfies C07); TreeMap/TreeSet/TreeBidiMap checked through work bounds only (their trees are unexported); TreeBidiMap bound is 4x per comparator.",
+         "DESIGN.md §4 C07"),
+ "C08": ("model-based PBT + bounded-exhaustive call sequences vs integer cursor model, all 18 iterator types",
+         X + "Scripts of Next/Prev/Begin/End/First/Last/NextTo/PrevTo on states incl. empty, single, wrapped ring, heap after pops; every call's return value and Index/Key/Value after successful moves equal a cursor over the container's own sequence; all call sequences of length 5 for n in 0..3 on every type.",
+         "Nothing is read at the sentinels; no iterator use across mutations (README excludes it); the heap's Values() is itself built from its iterator, so for the heap only positions and return values are independent.",
+         "DESIGN.md §4 C08"),
+ "C09": ("model-based PBT + exhaustive sequences vs ordered-slice model",
+         X + "Put/Add/Remove/Clear histories on LinkedHashMap/LinkedHashSet with int and string keys: Keys, Values, forward/backward iterator, Each order and indices, and ToJSON key order (token decoder) equal the insertion-order model after every step.",
+         "Trusts the ordered-slice model.",
+         "DESIGN.md §4 C09"),
+ "C10": ("model-based PBT + exhaustive sequences vs two-map model with eviction",
+         X + "Put/Remove/Clear with colliding keys and values on both bidirectional maps: Get and GetKey over the whole domain equal the model and are mutually inverse, Keys/Values are the model's sets, sizes agree, no displaced pair is returned; all sequences of length 5 over 13 operations.",
+         "Total comparators only for TreeBidiMap.",
+         "DESIGN.md §4 C10"),
+ "C11": ("round-trip PBT over all 21 kinds x configurations x int/string elements",
+         X + "For states built by add/put/remove/pop/clear scripts: ToJSON valid, right top-level type, equal to json.Marshal, container unchanged; FromJSON and json.Unmarshal into fresh containers give the same observable state, iteration order, re-serialisation and Pop/Dequeue sequence.",
+         "JSON-representable elements; total comparators.",
+         "DESIGN.md §4 C11"),
+ "C12": ("differential PBT against encoding/json into a fresh slice/map, grammar + mutation + raw byte inputs, model-checked continuation; native fuzz target in the thorough tier",
+         X + "Arbitrary prior content, then hostile inputs through FromJSON/json.Unmarshal: on error the full observable state and ToJSON are exactly as before; on success the content is exactly the reference denotation under the kind's discipline; follow-up operations and the final drain agree with the family's model.",
+         "Bidi survivor among keys sharing a value and LinkedHashMap position of a repeated key left open; inputs are short.",
+         "DESIGN.md §4 C12"),
+ "C13": ("model-based + metamorphic PBT with deep reflective fingerprint; exhaustive subset pairs",
+         X + "Intersection/Union/Difference on HashSet/TreeSet/LinkedHashSet operands (incl. the same object, empty, nested, either size): result membership equals Go-map algebra, result is a new object, operands keep contents and fingerprint, later mutation of any of the three leaves the others unchanged, TreeSet results stay in the operands' order.",
+         "TreeSet operands share one comparator function value.",
+         "DESIGN.md §4 C13"),
+ "C14": ("model-based PBT over predicate and mapper families with callback logs and fingerprints",
+         X + "Each/Any/All/Find/Select/Map on the 8 enumerable kinds x comparators: callback log equals the iterator sequence, Any/All/Find equal exists/for-all/first, Select/Map equal the kind's model fed the elements in order, results are new and keep the ordering discipline, receiver keeps contents and fingerprint.",
+         "Pure callbacks; representative among equal-comparing values not asserted.",
+         "DESIGN.md §4 C14"),
+ "C15": ("reflective API-surface PBT: invariants after every exported call + cleared-vs-fresh lock-step differential",
+         X + "Histories over every exported method of all 21 kinds: Empty<=>Size==0, len(Values)==len(Keys)==Size, Full<=>Size==cap, String prefix, observers leave the fingerprint; after Clear a continuation is applied in lock-step to the cleared and to a fresh container and every result and observer must agree.",
+         "Map-order-dependent results normalised (see evidence assumptions).",
+         "DESIGN.md §4 C15"),
+ "C16": ("metamorphic aliasing PBT with spare-capacity slices and deep fingerprint",
+         X + "Writes to returned Values()/Keys() slices (incl. appends into spare capacity) never reach the container; later container changes never reach earlier slices; slices passed to variadic constructors and Add/Append/Prepend/Insert/Push are copied; GetSortedValues* return sorted contents and leave contents, order, fingerprint and pop sequence intact.",
+         "int elements.",
+         "DESIGN.md §4 C16"),
+ "C17": ("reflective API-surface fuzzing-style PBT: every exported method with wild arguments; panic = failing case, fd 1/2 capture, watchdog",
+         X + "Every exported method of all 21 containers and all iterator methods (enumerated by reflection; evidence lists them) is called with wild indices, colliding/huge elements, empty variadics, hostile JSON bytes, synthesised callbacks/comparators/peers; no panic, no byte on stdout/stderr, every case within a 60 s watchdog.",
+         "Documented use only: constructor-made containers, valid configurations, fresh iterators read after successful moves, own nodes, non-nil peers, consistent comparators.",
+         "DESIGN.md §4 C17"),
+ "C18": ("purity PBT with deep reflective fingerprint + concurrent readers under the Go race detector (-race)",
+         X + "(a) every read-only operation leaves the deep fingerprint identical and answers the same again; (b) 2..8 goroutines issue drawn read-only calls from a barrier under -race: no race report, results equal the sequential answers, fingerprint unchanged. Schedules are not enumerated; the every-interleaving claim rests on purity plus the happens-before detector.",
+         "A write on a path no generated call takes is invisible; races are reported with the unshrunk case that first showed them.",
+         "DESIGN.md §4 C18"),
 }
 NOT_YET = "check under construction in this session (not claimed yet)"
 
